@@ -121,7 +121,7 @@ def sanitiser_order(chk):
         for e in o.path.events:
             if e[0] == "store":
                 for s in subterms(e[2]):
-                    if s[0] == "call" and s[1][0] == "glob" and s[1][1] in prog.functions and prog.functions[s[1][1]].module is cls.module:
+                    if s[0] == "call" and s[1][0] == "glob" and s[1][1] in prog.functions and prog.functions[s[1][1]].cls is None:
                         helper_quals.add(s[1][1])
     clamps, floors = {}, {}
     for q in sorted(helper_quals):
